@@ -211,6 +211,11 @@ def concat(iters, axis=0):
     const_each = [const.reshape([1] * ndim) if const.shape == () else const
                   for const in const_each]
 
+    num_col = max(linear.shape[1] for linear in linear_each)
+    for linear in linear_each:
+        if linear.shape[1] < num_col:
+            linear.resize(linear.shape[0], num_col)
+
     idx_all = np.concatenate(idx_each, axis=axis).flatten()
     linear_all = sp.vstack(linear_each)[idx_all]
     const_all = np.concatenate(const_each, axis=axis)
